@@ -5,6 +5,7 @@ import (
 	"io"
 	"net"
 	"os"
+	"runtime"
 	"sort"
 	"strings"
 	"sync"
@@ -53,7 +54,17 @@ type poolConn struct {
 	replyAt time.Time // answers*: when the peer's answer to the first write is readable
 	wrote   bool
 	replied bool
+	// script (may be nil): while script.linger > 0, Close takes that many scheduler yields before it returns
+	// (a close that takes a moment: close_notify, a lingering socket) and announces that it has begun
+	script *closeScript
 	io      []string // what the owner did on the connection: "Write 8 B", "Read blocks (deadline in 2s)", "-> deadline exceeded after 2s" ...
+}
+
+// closeScript is shared by the connections of one history: how long a Close takes (in scheduler yields, no
+// clock involved) while the harness has armed it, and a signal that some Close has begun.
+type closeScript struct {
+	linger  atomic.Int32
+	entered chan struct{}
 }
 
 // peerKinds lists the peer scripts newPoolConn understands (without the legacy "").
@@ -202,6 +213,17 @@ func (c *poolConn) Write(b []byte) (int, error) {
 
 func (c *poolConn) Close() error {
 	c.closed.Add(1)
+	if cs := c.script; cs != nil {
+		if n := int(cs.linger.Load()); n > 0 {
+			select {
+			case cs.entered <- struct{}{}:
+			default:
+			}
+			for i := 0; i < n; i++ {
+				runtime.Gosched()
+			}
+		}
+	}
 	c.abandon()
 	return nil
 }
